@@ -31,12 +31,12 @@ import (
 // ---------------------------------------------------------------- methods
 
 const (
-	c15ClsNone   = iota // no error result: only the no-panic oracle applies
-	c15ClsErr           // Error(): nil/error propagation only
-	c15ClsScalar        // scalar conversion: must fail on aggregate replies
-	c15ClsAgg           // structured helper: must fail on scalar replies
-	c15ClsUniv          // accepts any shape (ToAny, ToMessage)
-	c15ClsTransport     // NonRedisError(): reports the transport error only
+	c15ClsNone      = iota // no error result: only the no-panic oracle applies
+	c15ClsErr              // Error(): nil/error propagation only
+	c15ClsScalar           // scalar conversion: must fail on aggregate replies
+	c15ClsAgg              // structured helper: must fail on scalar replies
+	c15ClsUniv             // accepts any shape (ToAny, ToMessage)
+	c15ClsTransport        // NonRedisError(): reports the transport error only
 )
 
 type c15meth[R any] struct {
